@@ -54,6 +54,10 @@ def gen_unit(ctx, ty):
         if k == 'ServiceName' and ('/' in v or rnd.random() < 0.6):
             continue
         lines.append(f'{k}={v}')
+    if rnd.random() < 0.06:
+        # malformed section headers: closed on a later line, or never; a unit that is accepted nevertheless must still
+        # be written one line per entry
+        lines += [rnd.choice(['[X-Note\nExecStartPre=/bin/false\n]\nK=1', '[X-A\n[Service]\nExecStartPre=/bin/false\nX=]\nK=1', '[X-B \\\nC]\nK=1', '[X-C]]\nK=1', '[X-D]trailing\nK=1'])]
     if rnd.random() < 0.4:
         lines += [f'[{rnd.choice(["My [odd] name", "X-Foo", "Unit", "Service", "a=b", "#x"])}]', f'Description={rnd.choice(NASTY)}', f'K-{rnd.randint(1, 3)}={rnd.choice(NASTY)}']
     return '\n'.join(lines) + '\n'
